@@ -97,6 +97,7 @@ type Client struct {
 	ready          chan struct{}  // closed when the connection is negotiated
 	isClosed       uint32         // used atomically to prevent duplicate closure of done
 	sentClose      uint32         // set atomically once this Client writes CloseConnection
+	versionMu      sync.RWMutex   // guards version once the read/write loops are running
 	version        VersionNum     // sent in headers; established during negotiation
 }
 
@@ -423,7 +424,7 @@ func (c *Client) Connect(conn net.Conn) error {
 		negCancel()
 	}()
 
-	if c.version > Version1_0_1 {
+	if c.curVersion() > Version1_0_1 {
 		if err := c.negotiate(negCtx); err != nil {
 			select {
 			case loopErr := <-errs:
@@ -732,7 +733,7 @@ func (c *Client) handleIncoming() error {
 			return ErrClientClosed
 		}
 
-		c.logger.ReceivedMsg(hdr, c.version)
+		c.logger.ReceivedMsg(hdr, c.curVersion())
 
 		if hdr.typ == MsgCloseConnectionResponse && atomic.LoadUint32(&c.sentClose) == 1 {
 			receivedClosed = true
@@ -826,7 +827,7 @@ func (c *Client) handleOutgoing() error {
 			msg.version = Version1_1
 		} else {
 			// every other message carries the negotiated version
-			msg.version = c.version
+			msg.version = c.curVersion()
 		}
 
 		if c.timeout > 0 {
@@ -1060,7 +1061,7 @@ func (c *Client) checkInitialMessage() error {
 		return err
 	}
 
-	c.logger.ReceivedMsg(hdr, c.version)
+	c.logger.ReceivedMsg(hdr, c.curVersion())
 
 	if hdr.payloadLen > MaxBufferedPayloadSz {
 		return fmt.Errorf("initial connection message has huge size; "+
@@ -1165,6 +1166,21 @@ func (c *Client) getSupportedVersion(ctx context.Context) (*GetSupportedVersionR
 	return &sv, nil
 }
 
+// curVersion returns the LLRP version currently in use on the connection.
+// The read and write loops call it while negotiation may change the version.
+func (c *Client) curVersion() VersionNum {
+	c.versionMu.RLock()
+	defer c.versionMu.RUnlock()
+	return c.version
+}
+
+// setVersion records the negotiated LLRP version.
+func (c *Client) setVersion(v VersionNum) {
+	c.versionMu.Lock()
+	c.version = v
+	c.versionMu.Unlock()
+}
+
 // negotiate LLRP versions with the RFID device.
 //
 // Upon success, this sets the Client's version to match the negotiated value.
@@ -1185,16 +1201,18 @@ func (c *Client) negotiate(parent context.Context) error {
 	}
 
 	// Use the max of our desired version & the Reader's max supported version.
-	if c.version > sv.MaxSupportedVersion {
-		c.version = sv.MaxSupportedVersion
+	ver := c.curVersion()
+	if ver > sv.MaxSupportedVersion {
+		ver = sv.MaxSupportedVersion
+		c.setVersion(ver)
 	}
 
 	// If the device is already using this, no need to set it.
-	if sv.CurrentVersion == c.version {
+	if sv.CurrentVersion == ver {
 		return nil
 	}
 
-	m, err := NewByteMessage(MsgSetProtocolVersion, []byte{uint8(c.version)})
+	m, err := NewByteMessage(MsgSetProtocolVersion, []byte{uint8(ver)})
 	if err != nil {
 		return err
 	}
